@@ -1,5 +1,9 @@
 #!/bin/sh
 # usage: run.sh <ID> <quick|thorough> | --replay <file> | build-all
 export GOFLAGS=-mod=mod GOPROXY=off GOSUMDB=off GOTOOLCHAIN=local
+if [ "$1" = "--replay" ] && [ -n "$2" ]; then
+  case "$2" in /*) f="$2";; *) f="$(pwd)/$2";; esac
+  set -- --replay "$f"
+fi
 cd /verif/harness || exit 2
 exec go run ./cmd/verifrun "$@"
